@@ -80,6 +80,10 @@ enum HLine {
 enum Rec {
     Sync(u64),
     Fire { aid: u64, model: usize, seen: u64 },
+    /// a key object registered under name `key` for action `aid`
+    KeyAdded { key: u64, aid: u64 },
+    /// every key object registered so far under name `key` was cancelled (`model`: by a handler of that model)
+    Cancelled { key: u64, model: Option<usize> },
     Ext { aid: u64, ok: bool },
 }
 
@@ -104,8 +108,9 @@ impl Shared {
             }
         }
     }
-    fn add_key(&self, k: u64, key: ActionKey) {
+    fn add_key(&self, k: u64, key: ActionKey, aid: u64) {
         self.keys.lock().unwrap().entry(k).or_default().push(key);
+        self.log.lock().unwrap().push(Rec::KeyAdded { key: k, aid });
     }
 }
 
@@ -128,7 +133,10 @@ impl M {
         let lines = self.sh.scripts.lock().unwrap().get(&aid).cloned().unwrap_or_default();
         for l in lines {
             match l {
-                HLine::Cancel(k) => self.sh.cancel(k),
+                HLine::Cancel(k) => {
+                    self.sh.cancel(k);
+                    self.sh.log.lock().unwrap().push(Rec::Cancelled { key: k, model: Some(self.idx) });
+                }
                 HLine::Sched { dl, kind, period, aid, key } => {
                     let p = Duration::from_nanos(period);
                     match kind.as_str() {
@@ -137,7 +145,7 @@ impl M {
                         }
                         "keyed" => {
                             if let Ok(k) = cx.schedule_keyed_event(dl, M::inp, aid) {
-                                self.sh.add_key(key, k);
+                                self.sh.add_key(key, k, aid);
                             }
                         }
                         "per" => {
@@ -145,7 +153,7 @@ impl M {
                         }
                         _ => {
                             if let Ok(k) = cx.schedule_keyed_periodic_event(dl, p, M::inp, aid) {
-                                self.sh.add_key(key, k);
+                                self.sh.add_key(key, k, aid);
                             }
                         }
                     }
@@ -215,7 +223,7 @@ fn do_sched<D: Deadline>(
         "once" => s.schedule_event(dl, M::inp, aid, addr).map(|_| "ok").unwrap_or_else(sched_err),
         "keyed" => match s.schedule_keyed_event(dl, M::inp, aid, addr) {
             Ok(k) => {
-                sh.add_key(key, k);
+                sh.add_key(key, k, aid);
                 "ok"
             }
             Err(e) => sched_err(e),
@@ -223,7 +231,7 @@ fn do_sched<D: Deadline>(
         "per" => s.schedule_periodic_event(dl, p, M::inp, aid, addr).map(|_| "ok").unwrap_or_else(sched_err),
         _ => match s.schedule_keyed_periodic_event(dl, p, M::inp, aid, addr) {
             Ok(k) => {
-                sh.add_key(key, k);
+                sh.add_key(key, k, aid);
                 "ok"
             }
             Err(e) => sched_err(e),
@@ -276,6 +284,9 @@ struct Mon {
     rank: HashMap<u64, usize>,
     fires: Vec<(u64, usize, u64)>, // (aid, model, seen) in real order
     key_of_aid: HashMap<u64, u64>,
+    /// key objects in registration order per key name: (aid, cancelled by (command index, model))
+    objs: HashMap<u64, Vec<(u64, Option<(usize, Option<usize>)>)>>,
+    cmd: usize,
 }
 impl Mon {
     fn hit(&mut self, p: &str, w: String) {
@@ -306,6 +317,7 @@ fn render(recs: &[Rec], drv: &HashSet<u64>) -> String {
                 let origin = if drv.contains(aid) { 0 } else { model + 1 };
                 cur.push((*model, origin, format!("F{aid}@{model}:{seen}")));
             }
+            Rec::KeyAdded { .. } | Rec::Cancelled { .. } => {}
         }
     }
     flush(&mut cur, &mut out);
@@ -527,13 +539,13 @@ fn run_case(lines: Vec<String>, hints: Arc<Mutex<Vec<String>>>, resp: Arc<Mutex<
                             "once" => src.event(aid),
                             "keyed" => {
                                 let (a, ky) = src.keyed_event(aid);
-                                sh.add_key(key, ky);
+                                sh.add_key(key, ky, aid);
                                 a
                             }
                             "per" => src.periodic_event(period, aid),
                             _ => {
                                 let (a, ky) = src.keyed_periodic_event(period, aid);
-                                sh.add_key(key, ky);
+                                sh.add_key(key, ky, aid);
                                 a
                             }
                         };
@@ -555,6 +567,7 @@ fn run_case(lines: Vec<String>, hints: Arc<Mutex<Vec<String>>>, resp: Arc<Mutex<
             ["cancel", k] if bench.is_some() => {
                 let k: u64 = k.parse().unwrap();
                 sh.cancel(k);
+                sh.log.lock().unwrap().push(Rec::Cancelled { key: k, model: None });
                 let now = ns(bench.as_ref().unwrap().sim.time());
                 mon.cancelled_at.entry(k).or_insert(now);
                 tags.lock().unwrap().push("driver-cancel".into());
@@ -656,7 +669,7 @@ fn run_case(lines: Vec<String>, hints: Arc<Mutex<Vec<String>>>, resp: Arc<Mutex<
                                 }
                             }
                         }
-                        Rec::Ext { .. } => {}
+                        Rec::Ext { .. } | Rec::KeyAdded { .. } | Rec::Cancelled { .. } => {}
                     }
                 }
                 if res.is_ok() && w[0] != "proc" {
@@ -742,6 +755,37 @@ fn run_case(lines: Vec<String>, hints: Arc<Mutex<Vec<String>>>, resp: Arc<Mutex<
             }
             None => r,
         };
+        // ---- C09 on the implementation's own trace, at the level of key objects: an action all of whose key objects
+        // were cancelled before this command (by the driver or by any handler), or earlier in this command by a handler
+        // of the very model that processes it, must not run
+        mon.cmd += 1;
+        let recs_all = sh.log.lock().unwrap()[log_start..].to_vec();
+        for rec in &recs_all {
+            match rec {
+                Rec::KeyAdded { key, aid } => mon.objs.entry(*key).or_default().push((*aid, None)),
+                Rec::Cancelled { key, model } => {
+                    let c = mon.cmd;
+                    for o in mon.objs.entry(*key).or_default().iter_mut() {
+                        if o.1.is_none() {
+                            o.1 = Some((c, *model));
+                        }
+                    }
+                }
+                Rec::Fire { aid, model, seen } => {
+                    let mine: Vec<(u64, Option<(usize, Option<usize>)>)> =
+                        mon.objs.iter().flat_map(|(k, v)| v.iter().filter(|o| o.0 == *aid).map(move |o| (*k, o.1))).collect();
+                    if !mine.is_empty() && mine.iter().all(|(_, c)| matches!(c, Some((cmd, by)) if *cmd < mon.cmd || *by == Some(*model))) {
+                        let (k, c) = mine[0];
+                        let who = match c {
+                            Some((cmd, _)) if cmd < mon.cmd => "before this call".to_string(),
+                            _ => format!("earlier in this call by a handler of model {model} itself"),
+                        };
+                        mon.hit("C09", format!("`{l}`: action {aid} (key {k}) ran on model {model} at time {seen} although every key object issued for it had been cancelled {who}"));
+                    }
+                }
+                _ => {}
+            }
+        }
         hints.lock().unwrap().push(hint);
         push(r);
     }
